@@ -274,7 +274,7 @@ def run_and_validate(ctx, worlds, report, max_rejections=12, module="Ps3NetSrvTr
         remaining = remaining[remaining.index(bad) + 1:]
         if rejections >= max_rejections:
             break
-    # 2. validate
+    # 2. validate (TLC stops at the first rejected event: the worlds before it are accepted, the rest is re-examined)
     order = [i for i in todo if i in all_groups]
     while order:
         lines = [ln for i in order for ln in all_groups[i]]
@@ -323,12 +323,15 @@ def run_and_validate(ctx, worlds, report, max_rejections=12, module="Ps3NetSrvTr
                 sig = "Volume:" + "+".join(sorted(cl))
                 text += "\nviolated clauses: " + ", ".join(sorted(cl))
             report.violation(sig, text, {"script.json": {ctx.key: [worlds[badw]]},
-                                                    "trace.ndjson": "\n".join(json.dumps(x) for x in all_groups[badw]),
-                                                    "tlc.out": v.res.out[-4000:]})
+                                         "trace.ndjson": "\n".join(json.dumps(x) for x in all_groups[badw]),
+                                         "tlc.out": v.res.out[-4000:]})
             rejections += 1
         else:
             report.notes.append("unreproduced rejection in world %s (not counted)" % worlds[badw]["name"])
-        order = [i for i in order if i != badw]
+        bi = order.index(badw)
+        traces += order[:bi]
+        accepted_lines += acc
+        order = order[bi + 1:]
         if rejections >= max_rejections:
             report.notes.append("stopped after %d rejections; %d worlds unexamined" % (rejections, len(order)))
             break
